@@ -90,7 +90,8 @@ def scen_of(mech):
 
 OFFERS = ["none", "held", "held-noems", "held-noetm", "ticket-flip-first",
           "ticket-flip-mid", "ticket-flip-last", "unknown-id", "foreign",
-          "held-refreshed-clock", "held-other-hash", "held-same-hash"]
+          "held-refreshed-clock", "held-other-hash", "held-same-hash",
+          "held-copy"]
 # suite the client offers instead of the session's: (other PRF hash / other
 # suite, same hash) per original cipher name
 OTHER = {"aes128gcm": ("aes256gcm", "chacha20-poly1305"),
@@ -128,7 +129,16 @@ def apply_offer(st, offer):
     inconsistent = False
     if offer == "none" or sess is None:
         return None, cset, srv, False, False
-    sess = copy.deepcopy(sess)
+    # offers that alter the session work on a copy; the others hand over
+    # the very object the client holds, so that a later fatal error on the
+    # resumed connection marks *that* object (stateless tickets can only be
+    # invalidated on the client)
+    if offer.startswith("ticket-flip") or offer in ("unknown-id",
+                                                    "held-copy"):
+        # "held-copy": a client that stored the session elsewhere (or is
+        # not this library): a fatal error seen on another connection of
+        # the session does not mark its copy, only the server can refuse
+        sess = copy.deepcopy(sess)
     tls13 = st.mech["version"] >= (3, 4)
     if offer == "held":
         pass
@@ -192,7 +202,7 @@ def eligible(st, meta, srv_index, offer_sess, offer="held"):
         return False, "no session"
     if not meta["completed"]:
         return False, "not completed"
-    if meta["invalidated"]:
+    if meta.get("client_flagged") and offer != "held-copy":
         return False, "invalidated by fatal error / abrupt close"
     if meta["server"] != srv_index:
         return False, "foreign server"
@@ -205,8 +215,10 @@ def eligible(st, meta, srv_index, offer_sess, offer="held"):
     ok_ticket = mech["tickets"] and meta["has_ticket"] and \
         age <= LIFETIME and meta["key_epoch"] in srv_live_epochs(srv) and \
         not offer.startswith("ticket-flip") and offer != "unknown-id"
+    # (a stateless ticket cannot be invalidated by the server; a cached
+    # session can and must be)
     ok_id = mech["cache"] and age <= MAXAGE and not meta["evicted"] and \
-        offer != "unknown-id"
+        offer != "unknown-id" and not meta["invalidated"]
     if ok_ticket or ok_id:
         return True, "ticket" if ok_ticket else "id"
     return False, "expired / rotated / evicted / altered"
@@ -331,6 +343,10 @@ def step(st, ev, seed):
             pair.read("C", None, 1)
             if st.meta is not None:
                 st.meta["invalidated"] = True
+                # the client's own object is marked only if that object
+                # (not a copy of it) was used on the failed connection
+                if not getattr(st, "last_used_copy", False):
+                    st.meta["client_flagged"] = True
         elif ev[1] == "abrupt":
             pair.world.csock.close()
             pair.world.ssock.close()
@@ -338,6 +354,10 @@ def step(st, ev, seed):
             r2 = pair.read("C", None, 1)
             if st.meta is not None:
                 st.meta["invalidated"] = True
+                # the client's own object is marked only if that object
+                # (not a copy of it) was used on the failed connection
+                if not getattr(st, "last_used_copy", False):
+                    st.meta["client_flagged"] = True
         # the client keeps the same Session object: flags travel with it
         return fails
     # connect
@@ -345,6 +365,8 @@ def step(st, ev, seed):
         # previous connection still open: close it cleanly first
         step(st, ("close", "clean"), seed)
     rec = do_connect(st, ev[1], seed)
+    st.last_used_copy = ev[1].startswith("ticket-flip") or ev[1] in (
+        "unknown-id", "held-copy")
     if "local_error" in rec:
         return fails
     mech = st.mech
@@ -482,7 +504,9 @@ def search(item):
                                    lr["el"]))
                 st2.last_rec = None
             for f in fails:
-                if len(stats["fails"]) < 30:
+                pc = stats.setdefault("per_class", {})
+                pc[f[:40]] = pc.get(f[:40], 0) + 1
+                if pc[f[:40]] <= 8:
                     stats["fails"].append({"history": h2, "fail": f})
             if not fails:
                 rec(st2, h2, d - 1)
@@ -513,6 +537,10 @@ def run(res, tier, seed):
         # explored event
         for ev in events(tier):
             items.append((m, ev, depth, seed, tier))
+            if MECHS[m]["cache"] and (tier == "thorough" or m in (
+                    "tls12-id", "tls10-id")):
+                # the same from a server whose session cache already wrapped
+                items.append((m, ev, depth, seed, tier, ("evict",)))
     # histories start from connect(none): wrap
     states = trans = 0
     resum = fb = 0
@@ -553,23 +581,31 @@ def run(res, tier, seed):
 
 def search_from_initial(item):
     """History = connect(none) followed by the explored events."""
-    mech_name, first, depth, seed, tier = item
+    mech_name, first, depth, seed, tier = item[:5]
+    pre = item[5] if len(item) > 5 else None
     evs = events(tier)
     stats = {"mech": mech_name, "first": first, "states": 0,
              "transitions": 0, "fails": [], "resumptions": 0,
              "fallbacks": 0, "sigs": set()}
     st0 = State(mech_name)
+    prefix = []
+    if pre is not None:
+        # start from a non-initial server state (e.g. a session cache whose
+        # ring has already wrapped)
+        step(st0, pre, seed)
+        prefix = [pre]
     fails = step(st0, ("connect", "none"), seed)
     st0.last_rec = None
     stats["transitions"] += 1
     if fails or st0.held is None:
-        stats["fails"].append({"history": [("connect", "none")],
+        stats["fails"].append({"history": prefix + [("connect", "none")],
                                "fail": "initial handshake: %r" % (fails,)})
         stats["sigs"] = []
         return stats
-    sub = search_core(st0, [("connect", "none")], first, depth, seed, evs,
-                      stats)
+    sub = search_core(st0, prefix + [("connect", "none")], first, depth, seed,
+                      evs, stats)
     stats["sigs"] = sorted(stats["sigs"], key=repr)
+    stats.pop("per_class", None)
     return stats
 
 
@@ -578,7 +614,8 @@ def search_core(st, hist, first, d, seed, evs, stats):
     if d == 0:
         return
     for ev in evs:
-        if len(hist) == 1 and ev != first:
+        if hist[-1] == ("connect", "none") and len(hist) <= 2 and \
+                ev != first and not any(h[0] != "evict" for h in hist[:-1]):
             continue
         if ev[0] == "close" and st.last is None:
             continue
@@ -611,7 +648,9 @@ def search_core(st, hist, first, d, seed, evs, stats):
             stats["sigs"].add((ev[1], lr["resumed"], lr["both"], lr["el"]))
             st2.last_rec = None
         for f in fails:
-            if len(stats["fails"]) < 30:
+            pc = stats.setdefault("per_class", {})
+            pc[f[:40]] = pc.get(f[:40], 0) + 1
+            if pc[f[:40]] <= 8:
                 stats["fails"].append({"history": h2, "fail": f})
         if not fails:
             search_core(st2, h2, first, d - 1, seed, evs, stats)
